@@ -872,6 +872,10 @@ fn run_inner(ops: &[String]) -> Vec<String> {
 					c.main.as_mut().unwrap().take_slices();
 					out.put(format!("h {:016x} {} {} {}", h, bad, h32(last.left), h32(last.right)));
 				}
+				"twchk" => {
+					tween_time_oracle(&tok, l, out);
+					out.put("ok");
+				}
 				_ => panic!("fxb: unknown op {}", tok[0]),
 			}
 		}
@@ -1292,6 +1296,10 @@ pub fn gen(rng: &mut Rng, n: usize, thorough: bool, stats: &mut Stats) -> Vec<St
 	let mut out = vec![];
 	for case in 0..n {
 		out.push(format!("case {}", case));
+		if rng.chance(1, 16) {
+			gen_tween_time_case(rng, &mut out, stats);
+			continue;
+		}
 		if rng.chance(3, 5) {
 			stats.hit("case_delay");
 			gen_delay_case(rng, thorough, &mut out, stats);
@@ -1301,4 +1309,182 @@ pub fn gen(rng: &mut Rng, n: usize, thorough: bool, stats: &mut Stats) -> Vec<St
 		}
 	}
 	out
+}
+
+// ---------------------------------------------------------------------------------------------
+// C06 on the delay and the reverb: every handle-settable parameter tweened over a non-zero duration while the
+// effect is processed in blocks of more than one frame (the same family as suite `fxa`'s `twchk`)
+// ---------------------------------------------------------------------------------------------
+
+/// `twchk <sr> <N> <which> <target> <delay ns> <dur ns> <easing> <amp32> <seed> <delay.new … | reverb.new …>` (oracle
+/// only; the twin prints `ok`).  Instance A gets `set <which> <target>` with the tween and runs in blocks of N frames, C
+/// the same frame by frame, B the same `set` with an instant tween; all get the same noise at `dt = 1/sr`.  C06: once
+/// the tween's audio time has been processed the parameter is on its target in all three; what the lines still hold
+/// from before decays by the feedback gain per pass, after which the outputs must agree closely.
+fn tween_time_oracle(tok: &[&str], line: &str, out: &mut Out) {
+	use kira::Tween;
+	let ids = ids();
+	let (sr, n) = (pu(tok[1]) as u32, pu(tok[2]) as usize);
+	let (which, target) = (tok[3], tok[4]);
+	let (delay, dur) = (pu(tok[5]), pu(tok[6]));
+	let (amp, mut seed) = (p32(tok[8]), pu(tok[9]));
+	let ctor = &tok[10..];
+	let dt = 1.0 / sr as f64;
+	let fixed = |s: &str, is32: bool| -> f64 {
+		let v = s.strip_prefix("fix:").expect("twchk: fixed values only");
+		if is32 {
+			p32(v) as f64
+		} else {
+			p64(v)
+		}
+	};
+	// loop gain and loop length (frames) of the slowest-decaying memory, before or after the tween
+	let (gain, loop_frames) = if ctor[0] == "delay.new" {
+		let mut db = fixed(ctor[2], true);
+		if which == "fb" {
+			db = db.max(fixed(target, true));
+		}
+		(10f64.powf(db / 20.0), (pu(ctor[1]) as f64 * 1e-9 * sr as f64).ceil() + 1.0)
+	} else {
+		let mut g = fixed(ctor[1], false);
+		if which == "fb" {
+			g = g.max(fixed(target, false));
+		}
+		(g, (1617.0 + 23.0) * sr as f64 / 44100.0 + 2.0)
+	};
+	if !(gain < 0.9) {
+		return;
+	}
+	let passes = if gain <= 0.0 { 1.0 } else { ((1e-5f64).ln() / gain.ln()).ceil() + 1.0 };
+	let settle = (1.5 * passes * loop_frames) as usize + 64;
+	if settle > 60_000 {
+		return;
+	}
+	let tol = 2e-3 * amp.abs() as f64 / (1.0 - gain) + 1e-9;
+	let tween = Tween {
+		start_time: if delay == 0 { kira::StartTime::Immediate } else { kira::StartTime::Delayed(Duration::from_nanos(delay)) },
+		duration: Duration::from_nanos(dur),
+		easing: crate::suites::units::parse_easing(tok[7]),
+	};
+	let instant = Tween { duration: Duration::ZERO, ..Default::default() };
+	let mk = |tw: Tween, ibs: usize| {
+		let mut i = Inst::build(ctor, &ids);
+		i.fx.init(sr, ibs);
+		i.fx.on_start_processing();
+		match (&mut i.handle, which) {
+			(Handle::Delay(h), "fb") => h.set_feedback(parse_value::<Decibels>(target, &ids), tw),
+			(Handle::Delay(h), "mix") => h.set_mix(parse_value::<Mix>(target, &ids), tw),
+			(Handle::Reverb(h), "fb") => h.set_feedback(parse_value::<f64>(target, &ids), tw),
+			(Handle::Reverb(h), "damp") => h.set_damping(parse_value::<f64>(target, &ids), tw),
+			(Handle::Reverb(h), "sw") => h.set_stereo_width(parse_value::<f64>(target, &ids), tw),
+			(Handle::Reverb(h), "mix") => h.set_mix(parse_value::<Mix>(target, &ids), tw),
+			_ => panic!("fxb: bad twchk parameter {}", which),
+		}
+		i.fx.on_start_processing();
+		i
+	};
+	let (mut a, mut b, mut c) = (mk(tween, n), mk(instant, n), mk(tween, 1));
+	let info = kira::info::MockInfoBuilder::new().build();
+	let tween_frames = ((delay + dur) as f64 * 1e-9 * sr as f64).ceil() as usize;
+	let blocks = tween_frames.div_ceil(n) + 2 + settle.div_ceil(n);
+	let window = 4usize.max(64 / n);
+	let (mut worst_ab, mut worst_cb) = (0.0f64, 0.0f64);
+	let lcg = |s: &mut u64| {
+		*s = s.wrapping_mul(6364136223846793005).wrapping_add(1442695040888963407);
+		(((*s >> 40) as f64 - 8388608.0) / 8388608.0) as f32
+	};
+	for j in 0..blocks + window {
+		let x: Vec<Frame> = (0..n).map(|_| Frame::new(lcg(&mut seed) * amp, lcg(&mut seed) * amp)).collect();
+		let (mut xa, mut xb, mut xc) = (x.clone(), x.clone(), x);
+		a.fx.process(&mut xa, dt, &info);
+		b.fx.process(&mut xb, dt, &info);
+		for f in xc.chunks_mut(1) {
+			c.fx.process(f, dt, &info);
+		}
+		if j >= blocks {
+			// parameters are sampled once per block: compare where every instance is at a block end
+			let (fa, fb, fc) = (xa[n - 1], xb[n - 1], xc[n - 1]);
+			if !(fa.left.is_finite() && fa.right.is_finite() && fb.left.is_finite() && fb.right.is_finite() && fc.left.is_finite() && fc.right.is_finite()) {
+				return;
+			}
+			worst_ab = worst_ab.max((fa.left as f64 - fb.left as f64).abs()).max((fa.right as f64 - fb.right as f64).abs());
+			worst_cb = worst_cb.max((fc.left as f64 - fb.left as f64).abs()).max((fc.right as f64 - fb.right as f64).abs());
+		}
+	}
+	premise("tween_audio_time");
+	if worst_ab > tol {
+		out.oracle_fail("tween_audio_time", format!("{} {}: blocks of {} off target by {:e} (tol {:e}) after the tween | {}", ctor[0], which, n, worst_ab, tol, line));
+	}
+	if worst_cb > tol {
+		out.oracle_fail("tween_audio_time", format!("{} {}: frame by frame off target by {:e} (tol {:e}) after the tween | {}", ctor[0], which, worst_cb, tol, line));
+	}
+}
+
+fn gen_tween_time_case(rng: &mut Rng, out: &mut Vec<String>, stats: &mut Stats) {
+	let sr = rng.pick(&[8000u64, 16000, 22050, 44100]);
+	let n = rng.pick(&[2u64, 3, 16, 64, 128, 128]);
+	let (ctor, which, target) = if rng.chance(1, 2) {
+		let fbs = [-6.0f32, -12.0, -3.0, -20.0];
+		let mixes = [0.5f32, 1.0, 0.25];
+		let (fb, mix) = (rng.pick(&fbs), rng.pick(&mixes));
+		let ctor = format!("delay.new {} {} {} -", rng.pick(&[1_000_000u64, 2_000_000, 5_000_000, 125_000]), fix32(fb), fix32(mix));
+		if rng.chance(1, 2) {
+			let t = loop {
+				let t = rng.pick(&fbs);
+				if t != fb {
+					break t;
+				}
+			};
+			(ctor, "fb", fix32(t))
+		} else {
+			let t = loop {
+				let t = rng.pick(&mixes);
+				if t != mix {
+					break t;
+				}
+			};
+			(ctor, "mix", fix32(t))
+		}
+	} else {
+		let pools: [&[f64]; 3] = [&[0.3, 0.5, 0.1], &[0.1, 0.5, 0.9], &[1.0, 0.0, 0.5]];
+		let mixes = [0.5f32, 1.0, 0.25];
+		let v: Vec<f64> = pools.iter().map(|p| rng.pick(p)).collect();
+		let mix = rng.pick(&mixes);
+		let ctor = format!("reverb.new {} {} {} {}", fix64(v[0]), fix64(v[1]), fix64(v[2]), fix32(mix));
+		let k = rng.below(4) as usize;
+		if k == 3 {
+			let t = loop {
+				let t = rng.pick(&mixes);
+				if t != mix {
+					break t;
+				}
+			};
+			(ctor, "mix", fix32(t))
+		} else {
+			let t = loop {
+				let t = rng.pick(pools[k]);
+				if t != v[k] {
+					break t;
+				}
+			};
+			(ctor, ["fb", "damp", "sw"][k], fix64(t))
+		}
+	};
+	let delay = rng.pick(&[0u64, 0, 0, 2_000_000, 10_000_000]);
+	let dur = rng.pick(&[5_000_000u64, 10_000_000, 20_000_000, 50_000_000, 3_333_333]);
+	let easing = fmt_easing(&if rng.chance(1, 2) { kira::Easing::Linear } else { gen_easing(rng) });
+	let amp = rng.pick(&[0.5f32, 0.25, 1.0]);
+	let seed = rng.below(1 << 40);
+	let dt = 1.0 / sr as f64;
+	out.push(ctor.clone());
+	out.push(format!("init {} {}", sr, n));
+	out.push("start".into());
+	out.push(format!("set {} {} {};{};{}", which, target, if delay == 0 { "imm".to_string() } else { format!("del:{}", delay) }, dur, easing));
+	out.push("start".into());
+	// the twin follows the tween through its whole duration and a little beyond, in blocks of N frames
+	let frames = ((delay + dur) as f64 * 1e-9 * sr as f64).ceil() as u64;
+	out.push(format!("run {} {} {} noise {} {}", o64(dt), n, frames.div_ceil(n) + 3, o32(amp), o32(amp)));
+	out.push(format!("twchk {} {} {} {} {} {} {} {} {} {}", sr, n, which, target, delay, dur, easing, o32(amp), seed, ctor));
+	stats.hit("tween_time_case");
+	stats.hit(&format!("tween_time_{}_{}", &ctor[..6], which));
 }
